@@ -154,3 +154,13 @@ func (xtd *extensionTypeDescriptor) Type() protoreflect.ExtensionType {
 func (xtd *extensionTypeDescriptor) Descriptor() protoreflect.ExtensionDescriptor {
 	return xtd.ExtensionDescriptor
 }
+
+// EnforceUTF8 forwards the pseudo-internal UTF-8 validation query
+// (see strs.EnforceUTF8) to the wrapped extension descriptor,
+// which embedding it as an interface would otherwise hide.
+func (xtd *extensionTypeDescriptor) EnforceUTF8() bool {
+	if xd, ok := xtd.ExtensionDescriptor.(interface{ EnforceUTF8() bool }); ok {
+		return xd.EnforceUTF8()
+	}
+	return xtd.ExtensionDescriptor.Syntax() == protoreflect.Proto3
+}
